@@ -8,25 +8,30 @@ KERNEL_NOTE = ('Trusted: Lean kernel; axioms propext/Classical.choice/Quot.sound
                'exact field arithmetic (IEEE rounding not modelled).')
 CHECKS = {
  'C08': {
-  'text': 'Proof (partial): single-site TDVP with purely imaginary dt keeps norm 1 and the energy of the normalised input for any number of steps and any number of Krylov iterations '
-          '(sweep invariant: mixed-canonical form + environment blocks = C04 partial contractions; local Lanczos-exponential steps preserve norm and <x,H_eff x>), returns the norm of the input, '
-          'never increases a bond (every QR step, any oracle with the shape clause), keeps qd/number of sites (13 theorems, all conditional on the run returning). Two-site TDVP: returned norm and '
-          'structure only; its conservation clauses, and non-mutation of H (trivial in a functional model), are carried by the exact correspondence of whole calls (H snapshot) and the oracle.',
-  'note': KERNEL_NOTE + ' QRKernel, NormContract, EighAt (per run), |dexp(i x)| = 1 are assumptions about NumPy/SciPy.',
+  'text': 'Proof (full for the conservation clauses; conditional on the run returning): for a Hermitian MPO and purely imaginary dt, single-site TDVP and two-site TDVP with tol_split = 0 keep norm 1 and the '
+          'energy of the normalised input for any number of steps and any number of Krylov iterations (mixed-canonical sweep invariant with environment blocks = C04 partial contractions; local Lanczos-'
+          'exponential steps preserve norm and <x,H_eff x>; QR / zero-tolerance split steps are pure gauge); both return the norm of the input; single-site TDVP never increases a bond; qd / site count kept '
+          '(17 theorems). Block sparsity and boundary charges of the evolved state are proved in C02 (tdvp1_wf, tdvp2_wf, boundary_kept_tdvp*). Non-mutation of H is trivial in a functional model and is '
+          'carried by the exact correspondence of whole calls (H snapshot); totality is observed, not proved.',
+  'note': KERNEL_NOTE + ' QRKernel, SVDContract/NormContract/SortContract (two-site), NormContract + EighAt per Krylov run, |dexp(i x)| = 1 are assumptions about NumPy/SciPy.',
   'design_ref': 'DESIGN.md §7 C08/C09/C10',
  },
  'C09': {
-  'text': 'Proof (partial): the cancellation law behind time reversibility — a Hermitian Krylov exponential step with dt followed by one with -dt on the result is the identity when both runs exhaust '
-          'their Krylov spaces and E(a)E(-a) = 1, for any complex dt, also at the level of localHamiltonianStep on site tensors (2 theorems). Exactness on a complete manifold and reversibility of whole '
-          'sweeps are not proved: they are decided by the exact correspondence of whole TDVP calls (real / imaginary / complex dt) and, after a break, by the oracle against scipy expm.',
+  'text': 'Proof (partial): the cancellation laws behind time reversibility — a Hermitian Krylov exponential step with dt followed by one with -dt is the identity when both runs exhaust their Krylov '
+          'spaces and E(a)E(-a) = 1, for any complex dt, for site tensors and bond matrices, also across the unitary gauge change that the QR of the second call introduces (QR gauge uniqueness proved); '
+          'one mirrored pair of single-site sweep steps is reversible (tdvp1_reversible_partial) (6 theorems). Not proved: exactness on a complete manifold and reversibility of complete sweeps / several '
+          'steps (the proof attempt also showed the literal "for any bond dimension" needs regularity: no QR may change a bond dimension and bond matrices must be invertible — generic states satisfy this). '
+          'These global clauses are decided by the exact correspondence of whole TDVP calls (real / imaginary / complex dt) and, after a break, by the oracle against scipy expm '
+          '(complete and over-complete manifolds, |dt| ||H|| up to 1.5, unnormalised and real-dtype inputs).',
   'note': KERNEL_NOTE + ' EighAt/ExpContract assumptions as in C15.',
   'design_ref': 'DESIGN.md §7 C08/C09/C10',
  },
  'C10': {
-  'text': 'Proof (partial): single-site DMRG (L >= 2, any sweeps / Lanczos iterations): the returned state is normalised, its energy equals the last reported energy, every reported energy is >= every '
-          'lower bound of the dense operator and <= the energy of the normalised start, and the reported sequence is non-increasing; local Ritz step facts and gauge moves preserving the dense state '
-          '(6 theorems, conditional on the run returning). Two-site DMRG and the sector-restricted ground-state bound are carried by the exact correspondence of whole calls and the oracle.',
-  'note': KERNEL_NOTE + ' QRKernel, NormContract, EighAt are assumptions about NumPy/SciPy.',
+  'text': 'Proof (partial, conditional on the run returning): single-site DMRG and two-site DMRG with tol_split = 0 (L >= 2, any sweeps / Lanczos iterations): the returned state is normalised, its energy '
+          'equals the last reported energy, every reported energy is >= every lower bound of the dense operator and <= the energy of the normalised start, and the reported sequence is non-increasing '
+          '(9 theorems). Not proved: the bound by the ground-state energy of the quantum-number sector only (proved for bounds of the whole operator), exactness on a complete manifold, two-site with '
+          'tol_split > 0; carried by the exact correspondence of whole calls and the oracle.',
+  'note': KERNEL_NOTE + ' QRKernel, SVD/norm/sort contracts (two-site), NormContract, EighAt are assumptions about NumPy/SciPy.',
   'design_ref': 'DESIGN.md §7 C08/C09/C10',
  },
  'C06': {
@@ -53,11 +58,10 @@ CHECKS = {
   'design_ref': 'DESIGN.md §7 C07',
  },
  'C20': {
-  'text': 'Proof (partial): for arbitrary chain lists the number of nodes created in each sweep round of from_opchains never exceeds the number of chains with non-zero coefficient '
-          '(uses the vertex-cover size theorem of C18), every successful run is such a sweep; merge_edges/simplify only remove nodes and edges and every surviving node keeps its level, so every layer width (bond dimension) is non-increasing under simplify '
-          '(7 theorems; chain_bound_partial: the identification of sweep round k with layer k+1 is validated by the correspondence, not proved). The Schmidt-rank equality for generic parameters cannot be carried by a theorem '
-          'here (generic real parameters, numerical rank): it is checked by the oracle (SVD rank vs bond_dims, L <= 6) after a break, and bond dimensions of all compiled graphs are part of the exact '
-          'correspondence.',
+  'text': 'Proof (full for the second and third clause): for arbitrary chain lists every layer of the graph returned by from_opchains — hence every bond dimension of the MPO — has at most as many nodes as '
+          'there are chains with non-zero coefficient (chain_bound, chain_bound_mpo; uses the vertex-cover size theorem of C18); simplify keeps the level of every surviving node, so no layer width '
+          '(bond dimension) increases (simplify_mono) (10 theorems). The first clause — bond dimension = operator Schmidt rank for generic parameters — cannot be carried by a theorem of this family '
+          '(generic reals, numerical rank): bond dimensions of all compiled graphs are part of the exact correspondence, and an always-on numeric stream plus the oracle compare them with SVD ranks (L <= 6).',
   'note': KERNEL_NOTE + ' No kernel contracts.',
   'design_ref': 'DESIGN.md §7 C20',
  },
